@@ -81,8 +81,17 @@ def gen_scenario(rng):
         fmt, _, _ = T.gen_fmt(rng, allow_hidden=False)
         if 'st' not in fmt:
             fmt = "st," + fmt
+        titles = None
+        if rng.random() < 0.5:
+            # multi-line titles with items that are not strings
+            titles = {f: rng.choice([["first", 2024], [True, "x"], "two\nlines", [None], [3.5, "u"]])
+                      for f in T.FIELDS if rng.random() < 0.5}
         objects.append({'kind': 'table', 'recs': recs, 'fmt': fmt, 'header': rng.choice([None, "hdr"]),
-                        'footer': rng.choice([None, "foot"])})
+                        'footer': rng.choice([None, "foot"]), 'titles': titles, 'tid': len(objects)})
+    if rng.random() < 0.6:
+        # a second table built from the format object of the first, showing records of other widths
+        other = [list(r) for r in T.gen_records(rng, (2, 4, 9))]
+        objects.append({'kind': 'table', 'recs': other, 'base_spec': objects[0], 'header': None, 'footer': None})
     objects.append({'kind': 'rec', 'recs': recs, 'fmt': rng.choice(["a,st/val,d:5", "st/full,b:3-6", "a,st"]),
                     'rec_index': rng.randrange(len(recs))})
     for jm in (True, False):
